@@ -119,7 +119,12 @@ type T struct {
 	steps      int64
 	sample     any
 	coord      string
+	sigCoord   *string
 }
+
+// SigCoord sets the coordinates used in the signature of a panic of this case
+// (default: the Coord).
+func (t *T) SigCoord(c string) { t.sigCoord = &c }
 
 // Class sets the outcome class of the case (for the histogram).
 func (t *T) Class(c string) { t.class = c }
@@ -221,7 +226,11 @@ func (r *Runner) Do(caseID string, fn func(t *T)) {
 		defer func() {
 			if e := recover(); e != nil {
 				stack := string(debug.Stack())
-				sig := "panic|" + t.coord + "|" + PanicSig(e, stack)
+				sc := t.coord
+				if t.sigCoord != nil {
+					sc = *t.sigCoord
+				}
+				sig := "panic|" + sc + "|" + PanicSig(e, stack)
 				t.Violation(sig, fmt.Sprintf("panic: %v", e), map[string]any{"case": caseID, "coord": t.coord}, nil, trimStack(stack))
 				if t.class == "" {
 					t.class = "panic"
@@ -311,6 +320,12 @@ func PanicSig(e any, stack string) string {
 	msg := fmt.Sprint(e)
 	if i := strings.IndexByte(msg, '\n'); i >= 0 {
 		msg = msg[:i]
+	}
+	if strings.HasPrefix(msg, "proto: ") {
+		// protobuf-go prefixes the offending field's full name: keep the cause
+		if i := strings.LastIndex(msg, ": "); i >= 0 {
+			msg = "proto: " + msg[i+2:]
+		}
 	}
 	msg = reQuoted.ReplaceAllString(msg, `"…"`)
 	msg = reHex.ReplaceAllString(msg, "0x…")
